@@ -9,12 +9,21 @@ class Unknown(Exception):
     pass
 
 
-def run(body, an, sign, classify_call, classify_field):
+def run(body, an, sign, classify_call, classify_field, pair=None, events=None):
     """execute `body` abstractly with sign(a) = sign in {-1, 0, 1}.
     classify_call(term) -> abstract value or None for calls producing inputs (e.g. the atomic load of `a` -> ('a', 1))
     classify_field(place) -> abstract value or None for field reads.
     returns {field name: abstract value} of the aggregate assigned to _0, values: ('a', k) | ('c', int) | ('in', name)"""
     env = {}
+    # pair = (X, Y): two named inputs whose difference a = X - Y is the distinguished quantity (its sign is fixed for the run):
+    # X - Y is ('a', 1), Y - X is ('a', -1), comparisons of X and Y are decided by the sign; a plain subtraction that comes out
+    # negative under this sign is recorded in `events` as a wrap
+    def pair_diff(x, y):
+        if pair and x == ('in', pair[0]) and y == ('in', pair[1]):
+            return ('a', 1)
+        if pair and x == ('in', pair[1]) and y == ('in', pair[0]):
+            return ('a', -1)
+        return None
     def val(op):
         if op.kind == 'const':
             v = op.const.get('v', '')
@@ -49,6 +58,10 @@ def run(body, an, sign, classify_call, classify_field):
             return sign * v[1]
         raise Unknown('sign of %r' % (v,))
     def cmp(op, a, b):
+        d_ = pair_diff(a, b)
+        if d_ is not None:
+            sa = sign * d_[1]          # sign of a - b
+            return {'Gt': sa > 0, 'Lt': sa < 0, 'Ge': sa >= 0, 'Le': sa <= 0, 'Eq': sa == 0, 'Ne': sa != 0}[op]
         # only comparisons where one side is the constant 0 or both are constants / multiples of a
         if a[0] in ('a', 'c') and b[0] in ('a', 'c'):
             if b == ('c', 0) or a == ('c', 0) or (a[0] == 'c' and b[0] == 'c'):
@@ -85,6 +98,11 @@ def run(body, an, sign, classify_call, classify_field):
                     env[s.place.local] = ('b', not v[1])
                 elif rv.kind == 'bin' and rv.binop in ('Gt', 'Lt', 'Ge', 'Le', 'Eq', 'Ne'):
                     env[s.place.local] = ('b', cmp(rv.binop, val(rv.ops[0]), val(rv.ops[1])))
+                elif rv.kind == 'bin' and rv.binop.startswith('Sub') and pair_diff(val(rv.ops[0]), val(rv.ops[1])) is not None:
+                    r_ = pair_diff(val(rv.ops[0]), val(rv.ops[1]))
+                    if sign * r_[1] < 0 and events is not None:
+                        events.append(('wrap', s.line))
+                    env[s.place.local] = ('pair', r_) if rv.binop.endswith('WithOverflow') else r_
                 elif rv.kind == 'bin' and rv.binop.startswith('Sub') and val(rv.ops[0]) == ('c', 0):
                     v = val(rv.ops[1])
                     r_ = ('a', -v[1]) if v[0] == 'a' else ('c', -v[1])
